@@ -27,6 +27,8 @@
 #include "parsec/interfaces/dtd/insert_function_internal.h"
 #include "parsec/data_dist/matrix/two_dim_rectangle_cyclic.h"
 #include "parsec/mca/pins/pins.h"
+#include "parsec/scheduling.h"
+#include "parsec/mca/sched/sched.h"
 #include "parsec/utils/debug.h"
 #include <mpi.h>
 
@@ -84,16 +86,12 @@ static parsec_dtd_tile_t *tile_handle(int g) {
 }
 static const char *mname(int m) { return m == M_R ? "R" : m == M_W ? "W" : "RW"; }
 
-/* key class of a repeated-tile task: (W|RW,*) when the first access of the repeated tile writes, else the literal modes */
+/* key class of a repeated-tile task: (W|RW,*) when the first access of the repeated tile writes, (R,*) when it reads */
 static void rep_class(const task_t *t, char *out, size_t n) {
     int d = -1;
-    for (int i = 0; i < t->np && d < 0; i++) for (int j = 0; j < i; j++) if (t->tile[i] == t->tile[j] && !(t->pfl[i] & PF_DONT_TRACK)) { d = t->tile[i]; break; }
-    int first = 1; size_t o = 0; o += snprintf(out + o, n - o, "(");
-    for (int i = 0; i < t->np; i++) if (t->tile[i] == d) {
-        if (first && t->mode[i] != M_R) { snprintf(out, n, "(W|RW,*)"); return; }
-        o += snprintf(out + o, n - o, "%s%s", first ? "" : ",", mname(t->mode[i])); first = 0;
-    }
-    snprintf(out + o, n - o, ")");
+    for (int i = 0; i < t->np && d < 0; i++) for (int j = 0; j < i; j++) if (t->tile[i] == t->tile[j] && !(t->pfl[i] & PF_DONT_TRACK) && !(t->pfl[j] & PF_DONT_TRACK)) { d = t->tile[i]; break; }
+    for (int i = 0; i < t->np; i++) if (t->tile[i] == d && !(t->pfl[i] & PF_DONT_TRACK)) { snprintf(out, n, "%s", t->mode[i] != M_R ? "(W|RW,*)" : "(R,*)"); return; }
+    snprintf(out, n, "(?)");
 }
 
 /* ---------------------------------------------------------------- PINS: AGAIN counting */
@@ -126,6 +124,26 @@ static void cb_exec(parsec_execution_stream_t *es, parsec_task_t *task, parsec_p
     escb_t *c = (escb_t *)((char *)d - offsetof(escb_t, exec)); (void)es;
     if (task == c->cur) c->cur = NULL;
     c->n_exec++;
+}
+
+/* ---------------------------------------------------------------- stuck report (diagnostic only, never a verdict) */
+static volatile int stuck_stop = 0, script_running = 0; static pthread_t stuck_thr;
+static void *stuck_main(void *a) {
+    (void)a; uint64_t last = 0; int same = 0, reported = 0;
+    while (!stuck_stop) {
+        usleep(500000);
+        if (!script_running) { VF_TICK(); same = 0; continue; }   /* start-up and tear-down (MPI, parsec_init/fini) are not monitored events: only the overall time-out applies */
+        uint64_t p = vf_progress;
+        if (p != last) { last = p; same = 0; continue; }
+        if (++same % 30 == 0 && reported < 8 && ran) {          /* 15 s without a monitored event */
+            char buf[900]; size_t o = 0; int n = 0; reported++;
+            for (int i = 0; i < NT && n < 12; i++) if (T[i].rank == myrank && !ran[i]) { o += snprintf(buf + o, sizeof buf - o, "%s%d", n ? "," : "", i); n++; }
+            char ag[300]; size_t q = 0; ag[0] = 0;
+            for (int e = 0; e < NES && q < sizeof ag - 20; e++) if (ESCB && ESCB[e].cur) q += snprintf(ag + q, sizeof ag - q, "%s%d", q ? "," : "", ESCB[e].cur_id);
+            vf_out("{\"type\":\"stuck\",\"rank\":%d,\"progress\":%llu,\"first_not_run\":[%s],\"retrying_prepare_input\":[%s]}", myrank, (unsigned long long)p, n ? buf : "", ag);
+        }
+    }
+    return NULL;
 }
 
 /* ---------------------------------------------------------------- insertion */
@@ -286,6 +304,7 @@ static void load_script(const char *path) {
 
 /* ---------------------------------------------------------------- main */
 int main(int argc, char **argv) {
+    vf_heartbeat_start(); pthread_create(&stuck_thr, NULL, stuck_main, NULL);
     int prov; MPI_Init_thread(&argc, &argv, MPI_THREAD_SERIALIZED, &prov);
     MPI_Comm_size(MPI_COMM_WORLD, &world); MPI_Comm_rank(MPI_COMM_WORLD, &myrank);
     const char *script = vf_arg(argc, argv, "--script", NULL);
@@ -304,7 +323,6 @@ int main(int argc, char **argv) {
 
     int pargc = 0; char **pargv = NULL;
     for (int i = 1; i < argc; i++) if (!strcmp(argv[i], "--")) { pargc = argc - i; pargv = argv + i; break; }
-    vf_heartbeat_start();
     pctx = parsec_init(cores, &pargc, &pargv);
     if (!pctx) die("parsec_init failed");
     VF_TICK();
@@ -413,6 +431,7 @@ int main(int argc, char **argv) {
     /* ---------- run the script */
     int64_t **snap = calloc(NOPS + 1, sizeof(int64_t *)); int **snaptorn = calloc(NOPS + 1, sizeof(int *));
     int started = 0, nchecks = 0, nflush = 0, nwaits = 0;
+    script_running = 1;
     if (!late_start) { parsec_context_start(pctx); started = 1; }
     for (int o = 0; o < NOPS; o++) {
         op_t *op = &OPS[o];
@@ -446,7 +465,7 @@ int main(int argc, char **argv) {
     }
     for (int k = 0; k < NTP; k++) parsec_taskpool_free(TP[k]);
     parsec_context_wait(pctx);
-    VF_TICK();
+    VF_TICK(); script_running = 0;
     for (int e = 0; e < NES; e++) account_again(&ESCB[e]);
 
     /* ---------- verdicts */
@@ -567,9 +586,11 @@ int main(int argc, char **argv) {
         vf_out("{\"type\":\"summary\",\"ranks\":%d,\"tasks\":%d,\"ran\":%ld,\"reads_compared\":%ld,\"read_mismatch\":%ld,\"finals_compared\":%ld,\"final_mismatch\":%ld,"
                "\"flush_compared\":%ld,\"flush_mismatch\":%ld,\"order_pairs\":%ld,\"order_bad\":%ld,\"reader_pairs_overlapped\":%ld,\"reader_groups\":%ld,"
                "\"reader_groups_overlapped\":%ld,\"reader_overlap_online\":%ld,\"max_concurrent_readers\":%ld,\"again\":%ld,\"writer_again\":%ld,\"prepare_input\":%ld,"
-               "\"yield_hits\":%ld,\"xrank_reads\":%ld,\"xrank_flush\":%ld,\"null_params\":%ld,\"checks\":%d,\"flushes\":%d,\"waits\":%d,\"violations\":%d,\"tainted_reads\":%ld}",
+               "\"yield_hits\":%ld,\"xrank_reads\":%ld,\"xrank_flush\":%ld,\"null_params\":%ld,\"checks\":%d,\"flushes\":%d,\"waits\":%d,\"violations\":%d,\"tainted_reads\":%ld,"
+               "\"sched\":\"%s\",\"window\":%d,\"threshold\":%d,\"cores\":%d}",
                world, NT, tot[0], tot[1], tot[2], tot[3], tot[4], tot[5], tot[6], tot[7], tot[8], tot[9], tot[10], tot[11], tot[12], mxall, tot[13], tot[14], tot[15],
-               tot[16], tot[17], tot[18], tot[19], nchecks, nflush, nwaits, nvall, n_tainted);
+               tot[16], tot[17], tot[18], tot[19], nchecks, nflush, nwaits, nvall, n_tainted,
+               parsec_current_scheduler ? parsec_current_scheduler->component->base_version.mca_component_name : "?", parsec_dtd_window_size, parsec_dtd_threshold_size, NES);
 
     /* ---------- tear down */
     for (int k = 0; k < NTP; k++) {
@@ -583,7 +604,7 @@ int main(int argc, char **argv) {
         parsec_pins_unregister_callback(es, EXEC_BEGIN, cb_exec, &d);
     }
     parsec_fini(&pctx);
-    vf_heartbeat_stop();
+    vf_heartbeat_stop(); stuck_stop = 1; pthread_join(stuck_thr, NULL);
     MPI_Finalize();
     return nvall ? 1 : 0;
 }
